@@ -31,14 +31,14 @@ from props import base
 
 PROP = "C14"
 PROPS_V = "theories/Props/C14.v"
-THEOREMS = ["C14_show_eq_query_reach", "C14_show_eq_query_core", "C14_stored_below_mark", "C14_monotone_clock_suffices",
-            "C14_refuted_EventNotAboveMark_component_max", "C14_show_idempotent",
-            "C14_failed_show_then_show_exact", "C14_failed_show_state", "C14_refuted_InterruptedRefresh", "C14_failed_show_example", "C14_remember_dup_rejected",
-            "C14_remember_fresh_accepted", "C14_show_eq_query_refuted", "C14_refuted_MarkOfLastFrame",
+THEOREMS = ["C14_show_eq_query_reach", "C14_mark_dominates_every_row", "C14_any_arrival_order",
+            "C14_former_MarkOfLastFrame_witness_exact", "C14_stored_below_mark", "C14_monotone_clock_suffices",
+            "C14_show_idempotent", "C14_failed_show_then_show_exact", "C14_failed_show_state", "C14_refuted_InterruptedRefresh",
+            "C14_failed_show_example", "C14_remember_dup_rejected", "C14_remember_fresh_accepted", "C14_show_eq_query_refuted",
             "C14_refuted_PayloadTimeField_dup", "C14_refuted_PayloadTimeField_lost", "C14_refuted_PayloadTimeField_hidden",
-            "C14_refuted_EventNotAboveMark", "C14_refuted_LimitNotReapplied", "C14_refuted_RawStreamDuplicates",
-            "C14_refuted_SegmentOlderThanEvent", "C14_show_eq_query_outside_known", "C14_no_class_is_good",
-            "C14_outside_known_example"]
+            "C14_refuted_EventNotAboveMark", "C14_refuted_EventNotAboveMark_component_max", "C14_refuted_LimitNotReapplied",
+            "C14_refuted_RawStreamDuplicates", "C14_refuted_SegmentOlderThanEvent", "C14_show_eq_query_outside_known",
+            "C14_no_class_is_good", "C14_outside_known_example"]
 RULE = ("engine histories over 1..3 shards (STORE with pinned second / scripted millisecond clock, FLUSH, compaction round, "
         "restart, REMEMBER, SHOW followed by QUERY, SHOW whose response writer fails after n bytes) for queries with FOR / WHERE / SINCE / USING / RETURN / LIMIT, plus "
         "function-level append sequences of MaterializedSink and HighWaterMark op sequences; a history is non-trivial when "
@@ -59,7 +59,7 @@ TRUSTED = [
 ]
 CLAIMED = True
 MANIFEST = {
- "level_text": "Theorems over Model/Materialize.v (all layouts: any shards/segments/zones/file times; all histories of new quiescent layouts, REMEMBERs and SHOWs; all arrival orders of the batches; queries with FOR/WHERE/SINCE on the core timestamp): inductive invariant 'stored frames = matching events at or below the mark'; every SHOW returns exactly the live selection, each event once; SHOW is idempotent without new data; REMEMBER under an existing name is rejected. The full property is refuted with machine-checked witnesses, each replayed on the real engine, and proved outside seven decidable classes: the materialisation's mark is the mark of the LAST frame appended, not the maximum (MarkOfLastFrame: about one REMEMBER in four over memtable+segment stores the memtable batch first and the next SHOW returns those events twice); a payload time field (USING f) is compared against a mark taken from the core timestamp (PayloadTimeField); an event that is not above the mark when it arrives is never shown (EventNotAboveMark: frozen/backward clock, same millisecond on a lower shard); LIMIT is cut at REMEMBER and never re-applied by SHOW (LimitNotReapplied); REMEMBER inside a flush window stores the raw stream twice (RawStreamDuplicates); a segment file older than mark-1 s is skipped whole (SegmentOlderThanEvent). SHOW's two-step persistence is modelled (frames appended while streaming, catalog entry rewritten after the response): a SHOW whose delivery failed, followed by any good operations and a healthy SHOW, is proved exact, except when the aborted refresh kept the newer delta batch only (InterruptedRefresh, reproduced with a response above the writer's 64 KiB buffer). The round-0 hypothesis about created_at pruning after an empty REMEMBER is refuted (dead code). The model is replayed against the engine on generated histories with observed layouts/frames; the oracle compares SHOW with QUERY issued back to back.",
+ "level_text": "Theorems over Model/Materialize.v (all layouts: any shards/segments/zones/file times; all histories of new quiescent layouts, REMEMBERs and SHOWs; all arrival orders of the batches; queries with FOR/WHERE/SINCE on the core timestamp): inductive invariant 'stored frames = matching events at or below the mark'; every SHOW returns exactly the live selection, each event once; SHOW is idempotent without new data; REMEMBER under an existing name is rejected. The full property is refuted with machine-checked witnesses, each replayed on the real engine, and proved outside six decidable classes (a seventh, MarkOfLastFrame, was repaired by c71d768: the mark is now the maximum over the frames, proved to dominate every stored row for every arrival order of the batches, so REMEMBER and SHOW are exact whatever the fan-in order); a payload time field (USING f) is compared against a mark taken from the core timestamp (PayloadTimeField); an event that is not above the mark when it arrives is never shown (EventNotAboveMark: frozen/backward clock, same millisecond on a lower shard); LIMIT is cut at REMEMBER and never re-applied by SHOW (LimitNotReapplied); REMEMBER inside a flush window stores the raw stream twice (RawStreamDuplicates); a segment file older than mark-1 s is skipped whole (SegmentOlderThanEvent). SHOW's two-step persistence is modelled (frames appended while streaming, catalog entry rewritten after the response): a SHOW whose delivery failed, followed by any good operations and a healthy SHOW, is proved exact, except when the aborted refresh kept the newer delta batch only (InterruptedRefresh, reproduced with a response above the writer's 64 KiB buffer). The round-0 hypothesis about created_at pruning after an empty REMEMBER is refuted (dead code). The model is replayed against the engine on generated histories with observed layouts/frames; the oracle compares SHOW with QUERY issued back to back.",
  "design_ref": "DESIGN.md §6 C14",
  "level_note": "Trusted: Coq kernel; ExtrOcamlBasic extraction + ocaml/p_mat.ml; the engine harness, tools/engine.py, harness/src/probes/mat.rs (layout and frames are read with the engine's own readers); clock hooks under cfg(sneldb_verif). Arrival order of batches and (for LIMIT) the delivered rows are inputs taken from the observation. Not modelled: ORDER BY/OFFSET/aggregates in remembered queries, retention, batches > 32768 rows."
 }
@@ -161,6 +161,7 @@ class Hist:
         self.prev_show = {}
         self.last_layout = None
         self.faulted = {}      # name -> a SHOW failed since the last healthy one
+        self.sink_mark = {}    # name -> store mark at the last frames() reading
         self.pending_fail = {}
         self.notes_info = []
 
@@ -277,9 +278,14 @@ class Hist:
     def frames(self, name):
         out = fn_probe(f"mat_frames {hx(os.path.join(self.eng.root, 'cols', 'materializations', 'm%d' % name))}")
         fr = []
+        self.sink_mark[name] = "0.0"
         if out in ("NOSTORE", "EMPTY", ""):
             return fr
         for tok in out.split(" "):
+            if tok.startswith("sink="):
+                # the mark a real MaterializedSink carries when re-opened on this store
+                self.sink_mark[name] = tok[5:]
+                continue
             mark, rows = tok.split(":", 1)
             ks = [int(r.split("/")[0]) for r in rows.split(",")] if rows else []
             fr.append((mark, ks))
@@ -316,7 +322,7 @@ class Hist:
         if after != seen:
             new = after[len(before):]
             self.tokens[ti] = f"F:{name}:{self.choice(shards, new)}"
-            mark = after[-1][0] if after else "0.0"
+            mark = self.sink_mark.get(name, "0.0")
             self.obs[oi] = f"F new={self.frames_str(new)} mark={mark} cat={self.catalog_mark(name)}"
             self.notes_info.append(f"failed SHOW m{name}: an append landed after the observation")
 
@@ -362,8 +368,8 @@ class Hist:
         if '"status":200' in out:
             m = re.search(r"high-water mark: timestamp=(\d+) event_id=(\d+)", out)
             mark = f"{m.group(1)}.{m.group(2)}" if m else "0.0"
-            if after and after[-1][0] != mark:
-                self.notes.append(f"REMEMBER reports mark {mark}, last frame carries {after[-1][0]}")
+            if after and self.sink_mark.get(name) != mark:
+                self.notes.append(f"REMEMBER reports mark {mark}, a sink re-opened on the store carries {self.sink_mark.get(name)}")
             self.obs.append(f"R ok frames={self.frames_str(new)} mark={mark}")
             self.shows.append({"kind": "remember", "name": name, "fresh": name not in self.queries})
             if name not in self.queries:
@@ -407,7 +413,7 @@ class Hist:
                 self.obs.append("S unknown")
                 self.shows.append({"kind": "show-failed", "name": name, "appended": 0})
                 return
-            mark = after[-1][0] if after else "0.0"
+            mark = self.sink_mark.get(name, "0.0")
             self.obs.append(f"F new={self.frames_str(new)} mark={mark} cat={self.catalog_mark(name)}")
             self.pending_fail[name] = (len(self.tokens) - 1, len(self.obs) - 1, before, shards, after)
             self.shows.append({"kind": "show-failed", "name": name, "appended": len(new), "bytes": fail, "crashed": crashed,
@@ -424,7 +430,7 @@ class Hist:
             self.shows.append({"kind": "show-unknown", "name": name, "known": name in self.queries, "msg": r.get("message")})
             return
         ks = sorted(int(x["k"]) for x in r["rows"])
-        mark = after[-1][0] if after else "0.0"
+        mark = self.sink_mark.get(name, "0.0")
         self.obs.append(f"S out={'+'.join(map(str, ks)) or '-'} new={self.frames_str(new)} mark={mark} cat={self.catalog_mark(name)}")
         q = self.queries.get(name)
         d = {"kind": "show", "name": name, "show": ks, "q": q, "after_fault": self.faulted.get(name, False)}
@@ -542,6 +548,32 @@ def model_parts(model):
     return a.split(" | "), b.split(" ")
 
 
+def hidden_names(line):
+    """names of the materialisations whose watermark filter is off (payload time field that RETURN omits)"""
+    out = set()
+    for tok in (line or "").split(" "):
+        if tok.startswith("R:"):
+            f = tok.split(":")
+            q = f[2].split(",")
+            if len(q) == 6 and q[3] == "P" and q[4] == "0":
+                out.add(f[1])
+    return out
+
+
+def obs_agree(a, b, tok, hidden):
+    """Equality of one observation.  One relaxation: with the watermark filter off the SHOW response writer drops
+    delta rows whose id it has seen, treating the first N batches it RECEIVES as the N stored frames; frames and delta
+    batches share one channel, so once the store holds duplicates (every SHOW of such a materialisation appends the raw
+    delta) the multiplicities of the output depend on the interleaving.  Then only the key set of `out`, and everything
+    else (new frames, store mark, catalog mark) exactly, are compared."""
+    if a == b:
+        return True
+    if not (a.startswith("S out=") and b.startswith("S out=") and tok.startswith("S:") and tok.split(":")[1] in hidden):
+        return False
+    (oa, ra), (ob, rb) = a[6:].split(" ", 1), b[6:].split(" ", 1)
+    return ra == rb and set(oa.split("+")) == set(ob.split("+"))
+
+
 def diffs(c, impl, model):
     if "line" in c:
         return [] if impl == model else [f"impl {impl} model {model}"]
@@ -555,8 +587,10 @@ def diffs(c, impl, model):
     io = impl["obs"].split(" | ") if impl["obs"] else []
     if len(mo) != len(io):
         return out + [f"model produced {len(mo)} observations, implementation {len(io)}: {model[:300]}"]
+    toks = impl["line"].split(" ")[1:]
+    hidden = hidden_names(impl["line"])
     for n, (a, b) in enumerate(zip(io, mo)):
-        if a != b:
+        if not obs_agree(a, b, toks[n] if n < len(toks) else "", hidden):
             out.append(f"op#{n}: impl [{a}] model [{b}]")
     return out
 
@@ -661,22 +695,26 @@ def failing_op(why):
     return int(m.group(1)) if m else None
 
 
+FIXED_CLASSES = {"MarkOfLastFrame"}   # repaired in /repo (c71d768): never a known class again; a recurrence is a VIOLATION
+
+
 def classify(c, impl, model=None):
     why = oracle(c, impl)
     if not why:
         return None
     if "line" in c:
-        return "MarkOfLastFrame" if c["line"].startswith("mat_sink") else None
+        return None
     n = failing_op(why)
     if n is None or model is None:
         return None
     mo, cls = model_parts(model)
     io = impl["obs"].split(" | ")
     # known only when the model predicts exactly this (wrong) answer and has flagged a class by then
-    if n >= len(mo) or n >= len(io) or mo[n] != io[n]:
+    toks = impl["line"].split(" ")[1:]
+    if n >= len(mo) or n >= len(io) or not obs_agree(io[n], mo[n], toks[n] if n < len(toks) else "", hidden_names(impl["line"])):
         return None
     flagged = [x for tok in cls[:n + 1] for x in tok.split(",") if x not in ("-", "")]
-    flagged = [x for x in flagged if x not in ("EVENTS-REMOVED", "ZERO-ID")]
+    flagged = [x for x in flagged if x not in ("EVENTS-REMOVED", "ZERO-ID") and x not in FIXED_CLASSES]
     return flagged[0] if flagged else None
 
 
@@ -714,12 +752,11 @@ def gen_query(rng, tf="C", limit=False):
         q["where"] = [rng.choice([">=", "=", "<"]), rng.range(1, 3)]
     if rng.chance(1, 3):
         q["since"] = rng.range(-2, 3)
-    # RETURN with two or more payload fields is avoided: SelectionProjection collects them in a HashSet, the column
-    # order then differs between schema and rows and values come back under the wrong column (not C14's business)
+    # multi-field RETURN is generated again: f2ae870 made the column order of RETURN fields stable
     if tf == "P":
-        q["ret"] = rng.choice([None, None, ["k"]])
+        q["ret"] = rng.choice([None, None, ["k"], ["k", "pt"], ["v", "k"]])
     elif rng.chance(1, 3):
-        q["ret"] = ["k"]
+        q["ret"] = rng.choice([["k"], ["k", "v"], ["v", "pt", "k"]])
     if limit:
         q["limit"] = rng.range(1, 3)
     return q
